@@ -1332,13 +1332,13 @@ def c11(prop, tier, seed, work):
            "rule": "episode = setup (s0..s3), 2 or 3 requests from the menu of spec/MCHandlers.tla and a complete schedule of their store calls chosen by tlc -simulate; the harness runs each request "
                    "in a goroutine and lets exactly one store call through at a time in that order (blocking tap before every store call), then once more per store with a seeded random order, "
                    "then without gates (all requests start at once and run in parallel: races inside store calls; on the directory store two of three such bursts meet a freshly restarted server); "
-                   "blob upload/delete mixes run with random orders only; TLC (spec/TraceLin.tla) searches a sequential order of Registry actions consistent with the real time order that yields "
+                   "blob upload/delete mixes and episodes with a collection of the repository among the requests run with random orders and bursts only; TLC (spec/TraceLin.tla) searches a sequential order of Registry actions consistent with the real time order that yields "
                    "every response and the final observed state", "samples": [{"setup": e["setup"], "reqs": e["reqs"], "sched": e["sched"][:12]} for e in episodes[:2]],
            "exhaustive": False, "failures": [{"id": e["id"], "store": e["store"], "reqs": e["episode"]["reqs"]} for _, e in violations][:10]}
     vlib.write_evidence(prop, tier, seed, "model_checking", cov, ASSUME_COMMON[:2] + [
         "atomicity grain: a store call is atomic (repository mutex); races inside one store call are only met by the random-order runs, not enumerated",
         "reading: a delete acknowledged with 202 although a concurrent delete had just removed the same target is accepted",
-        "background collection is not part of the episodes (it waits for all requests of the repository and is judged sequentially by C05/C06)"],
+        "collections take part in the episodes of GC_EPISODES (random orders and bursts, policy: untagged manifests and unreferenced blobs, no grace period, where the model's outcome is deterministic); they are not part of the schedules of Handlers.tla"],
         time.time() - t0, len(violations))
     if violations:
         for path, e in violations[:5]:
